@@ -215,11 +215,11 @@ func counterForwarder(kind core.CallKind, target common.Address, bubble bool) []
 // calldata[32:] as input; bubbles failures.
 func proxyCode() []byte {
 	a := core.NewAsm()
-	a.Push(32).Op(opCALLDATASIZE, opSUB)           // [size]
+	a.Push(32).Op(opCALLDATASIZE, opSUB)             // [size]
 	a.Op(opDUP1).Push(32).Push(0).Op(opCALLDATACOPY) // mem[0:size] = calldata[32:]
-	a.Push(0).Push(0).Op(opDUP3).Push(0)           // [size, outSize, outOff, inSize, inOff]
-	a.Push(0).Op(opCALLDATALOAD)                   // target
-	a.Op(opGAS, opDELEGATECALL)                    // [size, success]
+	a.Push(0).Push(0).Op(opDUP3).Push(0)             // [size, outSize, outOff, inSize, inOff]
+	a.Push(0).Op(opCALLDATALOAD)                     // target
+	a.Op(opGAS, opDELEGATECALL)                      // [size, success]
 	a.Op(opRETURNDATASIZE).Push(0).Push(0).Op(opRETURNDATACOPY)
 	a.PushLabel("ok").Op(opJUMPI)
 	a.Op(opRETURNDATASIZE).Push(0).Op(opREVERT)
